@@ -95,6 +95,8 @@ type FuncSpec struct {
 	Requires []Clause
 	Ensures  []Clause
 	OnSend   []SendClause // step contracts: must hold for every value sent on the named channel
+	OnMapStore []SendClause // step contracts at m[key] = val on the named map
+	OnDelete []SendClause // step contracts at delete(m, key) on the named map (Chan holds the map's name or Type.field)
 	Trusts   []Clause // postconditions assumed at call sites but not checked against the body (listed as assumptions)
 	Loops    map[int]*LoopSpec
 	Lets     []LetSpec
@@ -521,6 +523,34 @@ func (ss *SpecSet) parseFile(file, pkg, src string) error {
 				return fail(sl.line, "onsend: %v", err)
 			}
 			curF.OnSend = append(curF.OnSend, SendClause{Chan: strings.TrimSuffix(chName, ":"), Clause: Clause{Label: label, Text: strings.TrimSpace(r), E: e, Line: sl.line}})
+		case "ondelete", "onmapstore":
+			// ondelete <map variable or Type.field> [SEQ|INT] [label]: <expr over `key` and the state just BEFORE the delete>
+			if curF == nil {
+				return fail(sl.line, "ondelete outside func")
+			}
+			mName, r := splitWord(rest)
+			label, mode := "", ""
+			r = strings.TrimSpace(r)
+			for strings.HasPrefix(r, "[") {
+				cl := strings.Index(r, "]")
+				if t := r[1:cl]; t == "SEQ" || t == "INT" {
+					mode = t
+				} else {
+					label = t
+				}
+				r = strings.TrimSpace(r[cl+1:])
+			}
+			r = strings.TrimPrefix(r, ":")
+			e, err := ParseExpr(r)
+			if err != nil {
+				return fail(sl.line, "ondelete: %v", err)
+			}
+			sc := SendClause{Chan: strings.TrimSuffix(mName, ":"), Clause: Clause{Label: label, Mode: mode, Text: strings.TrimSpace(r), E: e, Line: sl.line}}
+			if word == "ondelete" {
+				curF.OnDelete = append(curF.OnDelete, sc)
+			} else {
+				curF.OnMapStore = append(curF.OnMapStore, sc)
+			}
 		case "inline":
 			if curF != nil {
 				curF.Inline = true
@@ -750,6 +780,17 @@ func lex(s string) ([]tok, error) {
 			}
 			toks = append(toks, tok{"int", strings.ReplaceAll(s[i:j], "_", "")})
 			i = j
+		case c == '`':
+			// `name`: an identifier that is a keyword of the contract language (a Go variable called exists, old, ...)
+			j := i + 1
+			for j < len(s) && s[j] != '`' {
+				j++
+			}
+			if j >= len(s) {
+				return nil, fmt.Errorf("unterminated `identifier`")
+			}
+			toks = append(toks, tok{"rawid", s[i+1 : j]})
+			i = j + 1
 		case c == '"':
 			j := i + 1
 			for j < len(s) && s[j] != '"' {
@@ -1098,6 +1139,8 @@ func (p *parser) parsePrimary() Expr {
 		return &EInt{t.s}
 	case "str":
 		return &EStr{t.s}
+	case "rawid":
+		return &EIdent{t.s}
 	case "id":
 		switch t.s {
 		case "true":
